@@ -86,6 +86,11 @@ def gen_sheet(rng, idx, max_rows, max_cols):
         for c in range(c0, c0 + w):
             cells[(r0, c)] = ("s", "col%d" % c)
     cells = {p: v for p, v in cells.items() if p[0] < max_rows and p[1] < max_cols}
+    if cells and rng.random() < 0.12:
+        # an error literal outside ECMA-376 18.17.3 (written by newer Excel versions): the xlsx
+        # reader rejects it, so reading THIS sheet fails while the other sheets read fine — a
+        # workbook in which one call can fail is what state-restoring code paths need to be tried on
+        cells[rng.choice(sorted(cells))] = ("x", "#SPILL!")
     formulas = {p: f for p, f in formulas.items() if p in cells}
     return {"name": name, "cells": cells, "formulas": formulas, "merges": merges, "tables": tables}
 
@@ -134,7 +139,7 @@ def xlsx_sheet_xml(rng, sh, sst, choice):
                 out.append("<c%s>%s<v>%s</v></c>" % (ref, ftag, repr(v[1])))
             elif v[0] == "b":
                 out.append('<c%s t="b">%s<v>%d</v></c>' % (ref, ftag, 1 if v[1] else 0))
-            elif v[0] == "e":
+            elif v[0] in ("e", "x"):
                 out.append('<c%s t="e">%s<v>%s</v></c>' % (ref, ftag, esc(v[1])))
             elif f:
                 out.append('<c%s t="str">%s<v>%s</v></c>' % (ref, ftag, esc(v[1])))
